@@ -8,7 +8,7 @@ node straight from the Python AST. We build a CFG, check it, and return a
 import ast
 import sys
 from dataclasses import dataclass, replace
-from typing import TYPE_CHECKING, ClassVar, cast
+from typing import TYPE_CHECKING, Any, ClassVar, cast
 
 from guppylang_internals.ast_util import return_nodes_in_ast, with_loc
 from guppylang_internals.cfg.bb import BB
@@ -206,6 +206,8 @@ def check_nested_func_def(
     ]
     def_id = DefId.fresh()
     globals = ctx.globals
+    # Binding of the function name in the enclosing Python frame, if we shadow it below
+    shadowed: tuple[Any] | tuple[()] | None = None
 
     # Check if the body contains a free (recursive) occurrence of the function name.
     # By checking if the name is free at the entry BB, we avoid false positives when
@@ -219,12 +221,24 @@ def check_nested_func_def(
             func = ParsedFunctionDef(def_id, func_def.name, func_def, func_ty, None)
             DEF_STORE.register_def(func, None)
             ENGINE.parsed[def_id] = func
-            globals.f_locals[func_def.name] = GuppyDefinition(func)
+            name = func_def.name
+            shadowed = (globals.f_locals[name],) if name in globals.f_locals else ()
+            globals.f_locals[name] = GuppyDefinition(func)
         else:
             # Otherwise, we treat it like a local name
             inputs.append(Variable(func_def.name, func_def.ty, func_def))
 
-    checked_cfg = check_cfg(cfg, inputs, func_ty.output, {}, func_def.name, globals)
+    try:
+        checked_cfg = check_cfg(
+            cfg, inputs, func_ty.output, {}, func_def.name, globals
+        )
+    finally:
+        # The frame belongs to the user's module or function: put back what was there
+        if shadowed is not None:
+            if shadowed:
+                globals.f_locals[func_def.name] = shadowed[0]
+            else:
+                del globals.f_locals[func_def.name]
     checked_def = CheckedNestedFunctionDef(
         def_id,
         checked_cfg,
